@@ -243,7 +243,10 @@ func (d *badgerNodeDB) cleanMultipartLocked(removeNodes bool) error {
 	batch := d.db.NewWriteBatchAt(versionToTs(version))
 	defer batch.Cancel()
 
-	var logged bool
+	var (
+		logged       bool
+		removedRoots []api.TypedHash
+	)
 	for it.Rewind(); it.Valid(); it.Next() {
 		// The key is handed to the write batch, which keeps it until it is flushed, while the
 		// iterator reuses the item's buffers.
@@ -267,9 +270,42 @@ func (d *badgerNodeDB) cleanMultipartLocked(removeNodes bool) error {
 				if err := batch.Delete(rootNodeKeyFmt.Encode(&hash)); err != nil {
 					return err
 				}
+				removedRoots = append(removedRoots, hash)
 			}
 		}
 		if err := batch.DeleteAt(key, tsMetadata); err != nil {
+			return err
+		}
+	}
+
+	// The removed roots must also disappear from the version's roots metadata. Otherwise a later
+	// regular commit of the same root into this version would be taken for a duplicate and skipped,
+	// leaving a root without nodes. This is done before the node log is removed, so that it is
+	// repeated in case we are interrupted.
+	if len(removedRoots) > 0 {
+		rootsTx := d.db.NewTransactionAt(versionToTs(version), true)
+		defer rootsTx.Discard()
+
+		rootsMeta, err := loadRootsMetadata(rootsTx, version)
+		if err != nil {
+			return err
+		}
+		for _, hash := range removedRoots {
+			delete(rootsMeta.Roots, hash)
+			if err = rootsTx.Delete(rootUpdatedNodesKeyFmt.Encode(version, &hash)); err != nil {
+				return err
+			}
+		}
+		switch len(rootsMeta.Roots) {
+		case 0:
+			err = rootsTx.Delete(rootsMetadataKeyFmt.Encode(version))
+		default:
+			err = rootsMeta.save(rootsTx)
+		}
+		if err != nil {
+			return fmt.Errorf("mkvs/badger: failed to update roots metadata: %w", err)
+		}
+		if err = rootsTx.CommitAt(tsMetadata, nil); err != nil {
 			return err
 		}
 	}
